@@ -16,13 +16,17 @@ STUB_DD = ["the solver loop (operations are issued by the harness)", "TimeBudget
 ALL_EXAMPLES = ["knapsack", "misp", "max2sat", "mcp", "lcs", "golomb", "sop", "tsptw", "srflp", "talentsched", "psp", "alp"]
 EXAMPLES_READY = ["knapsack", "misp", "max2sat", "mcp", "golomb", "lcs", "sop", "srflp", "tsptw", "talentsched", "psp", "alp"]
 
+QUICK_SCALE = 3   # quick budgets below were calibrated for 5-20 s per check; scaled up to use 30-60 s
+
 def A(arm, quick, thorough, **kw):
-    d = {"arm": arm, "quick": quick, "thorough": thorough}
+    scale = 1 if (arm.startswith("ext:") or arm.endswith("-enum") or "longarc" in arm or arm.startswith("ex-") or arm == "width-grid") else QUICK_SCALE
+    boost = kw.pop("boost", 1) if scale > 1 else (kw.pop("boost", 1) and 1)
+    d = {"arm": arm, "quick": min(quick * scale * boost, thorough), "thorough": thorough}
     d.update(kw)
     return d
 
 PROPS = {
-    "C01": {"level": "exploration", "arms": [A("seq-free", 60000, 3000000), A("seq-depthfree", 20000, 600000)],
+    "C01": {"level": "exploration", "arms": [A("seq-free", 60000, 3000000, boost=3), A("seq-depthfree", 20000, 600000, boost=3)],
             "probes": ["branched(explored>=2)", "infeasible_instance", "negative_optimum", "fault:width_jitter", "fault:rub_slack", "fault:cache_lossy_fired", "fault:dominance_weak_fired", "mon_merge_calls"],
             "rule": RULE_SOLVER},
     "C02": {"level": "exploration", "arms": [A("seq-free", 40000, 1500000), A("par-free", 30000, 1200000), A("par-cutoff", 30000, 1200000), A("seq-sweep", 4000, 150000)],
@@ -37,13 +41,13 @@ PROPS = {
     "C05": {"level": "exploration", "arms": [A("par-cutoff", 60000, 3000000), A("par-preempt-sweep-cutoff", 600, 30000), A("par-sweep", 1500, 60000), A("par-threads-cutoff", 10000, 400000), A("seq-sweep", 6000, 250000), A("seq-sweep-nodup", 6000, 300000)],
             "probes": ["fault:cutoff_fired", "probe:abort_with_peer_parked", "probe:abort_with_peer_processing", "probe:ub_strictly_decreased_between_consecutive_k", "sweep_executions"],
             "rule": RULE_SOLVER + "; sequential arm: for each sampled (instance, configuration) EVERY cutoff index k in 1..K+1 is executed (K = polls of the uninterrupted run); each (instance, configuration, k) with k <= K counts as one distinct non-trivial case"},
-    "C06": {"level": "fault_enumeration", "arms": [A("dd-history", 30000, 1200000), A("dd-history-narrow", 30000, 1200000), A("dd-history-depthfree", 10000, 400000), A("dd-history-longarc", 10000, 400000)],
+    "C06": {"level": "fault_enumeration", "arms": [A("dd-history", 30000, 1200000, boost=3), A("dd-history-narrow", 30000, 1200000, boost=3), A("dd-history-depthfree", 10000, 400000, boost=3), A("dd-history-longarc", 10000, 400000)],
             "probes": ["probe:relaxed_inexact", "probe:relaxed_exact", "probe:merged_state_equal_to_a_kept_node(recycled)", "probe:exact_best_path_claim_with_merges_present", "probe:infeasible_subproblem", "probe:incumbent_at_or_above_optimum", "fault:reuse_after_abort"],
             "rule": RULE_DD, "real": REAL_DD, "stub": STUB_DD},
-    "C07": {"level": "fault_enumeration", "arms": [A("dd-history", 30000, 1200000), A("dd-history-narrow", 30000, 1200000), A("dd-history-depthfree", 10000, 400000), A("dd-history-longarc", 10000, 400000)],
+    "C07": {"level": "fault_enumeration", "arms": [A("dd-history", 30000, 1200000, boost=3), A("dd-history-narrow", 30000, 1200000, boost=3), A("dd-history-depthfree", 10000, 400000, boost=3), A("dd-history-longarc", 10000, 400000)],
             "probes": ["probe:restricted_inexact(layer truncated)", "compilations_exact_mode", "probe:infeasible_subproblem", "fault:reuse_after_abort"],
             "rule": RULE_DD, "real": REAL_DD, "stub": STUB_DD},
-    "C08": {"level": "fault_enumeration", "arms": [A("dd-history", 30000, 1200000), A("dd-history-narrow", 30000, 1200000), A("dd-history-depthfree", 10000, 400000), A("dd-history-longarc", 15000, 600000)],
+    "C08": {"level": "fault_enumeration", "arms": [A("dd-history", 30000, 1200000, boost=3), A("dd-history-narrow", 30000, 1200000, boost=3), A("dd-history-depthfree", 10000, 400000, boost=3), A("dd-history-longarc", 15000, 600000)],
             "probes": ["probe:relaxed_inexact", "cutset_nodes_checked", "completions_checked_for_coverage", "probe:frontier_cutset_spanning_>=2_layers", "fault:reuse_after_abort"],
             "rule": RULE_DD, "real": REAL_DD, "stub": STUB_DD},
     "C09": {"level": "exploration", "arms": [A("par-cache", 40000, 2000000), A("seq-cache", 40000, 1500000), A("par-free", 10000, 500000), A("seq-depthfree", 10000, 400000)],
@@ -52,13 +56,13 @@ PROPS = {
     "C10": {"level": "exploration", "arms": [A("dom-enum", 1195740, 10761678, enum_len={"quick": 4, "thorough": 5}, samples=1), A("dom-history", 40000, 2000000), A("seq-dom", 30000, 1200000), A("par-dom", 30000, 1200000)],
             "probes": ["probe:dominated_verdict", "probe:equal_state_re_presented", "probe:recorded_entry_dropped_by_later_dominating_state", "threshold_soundness_probes", "comparator_pairs_checked", "probe:dominance_pruned_node"],
             "rule": "checker semantics: generated histories of is_dominated_or_insert / clear_layer over small alphabets (<= 2 keys + keyless, <= 3 coordinates in 0..2, values 0..3, 2 depths) compared step by step with a reference Pareto front; threshold soundness re-checked against fresh real checkers; distinct = distinct (use_value, history). Solver level: " + RULE_SOLVER},
-    "C11": {"level": "exploration", "arms": [A("fringe-enum", 222300, 4001436, enum_len={"quick": 4, "thorough": 5}, samples=1), A("fringe-history", 60000, 3000000), A("seq-depthfree-nodup", 20000, 800000), A("par-free", 10000, 400000), A("seq-sweep-nodup", 2000, 150000)],
+    "C11": {"level": "exploration", "arms": [A("fringe-enum", 222300, 4001436, enum_len={"quick": 4, "thorough": 5}, samples=1), A("fringe-history", 60000, 3000000, boost=3), A("seq-depthfree-nodup", 20000, 800000, boost=3), A("par-free", 10000, 400000), A("seq-sweep-nodup", 2000, 150000)],
             "probes": ["probe:coalesced", "probe:coalesced_with_different_ub", "fringe_clears", "fringe_pops"],
             "rule": "generated push/pop/clear histories (length 4..43, <= 4 states x <= 3 depths x values 0..4 x ubs 0..5) on SimpleFringe and NoDupFringe with MaxUB against a reference multiset keyed by (state, depth), every operation compared, final drain; distinct = distinct (fringe kind, history); plus in-situ reference multiset inside solver runs with depth-free states"},
-    "C12": {"level": "exploration", "arms": [A("dd-history", 20000, 800000), A("dd-history-narrow", 20000, 800000), A("dd-history-longarc", 6000, 200000), A("seq-free", 20000, 800000), A("par-free", 15000, 600000), A("par-cutoff", 10000, 400000), A("seq-longarc", 3000, 150000)],
+    "C12": {"level": "exploration", "arms": [A("dd-history", 20000, 800000, boost=3), A("dd-history-narrow", 20000, 800000, boost=3), A("dd-history-longarc", 6000, 200000), A("seq-free", 20000, 800000, boost=3), A("par-free", 15000, 600000), A("par-cutoff", 10000, 400000), A("seq-longarc", 3000, 150000)],
             "probes": ["mon_relax_calls", "mon_merge_calls", "mon_tc_calls", "mon_domain_calls", "mon_nextvar_calls", "fault:reuse_after_abort", "fault:cutoff_fired"],
             "rule": "every call of transition_cost / relax / merge / for_each_in_domain / next_variable made by the library during the runs is checked online by recording wrappers, per worker; cases = runs; non-trivial = at least one merge happened / the search branched"},
-    "C13": {"level": "exploration", "arms": [A("dd-history", 20000, 800000), A("dd-history-narrow", 20000, 800000), A("seq-free", 20000, 800000), A("par-free", 15000, 600000), A("width-grid", 3000, 30000)],
+    "C13": {"level": "exploration", "arms": [A("dd-history", 20000, 800000, boost=3), A("dd-history-narrow", 20000, 800000, boost=3), A("seq-free", 20000, 800000, boost=3), A("par-free", 15000, 600000), A("width-grid", 3000, 30000)],
             "probes": ["mon_layers_checked", "mon_layers_at_width"],
             "rule": "number of for_each_in_domain calls between two next_variable calls on one worker, compared with the width in force, for every bounded layer of every restricted / relaxed compilation of all-relevant models; the combinator clause (Times, DivBy never yield 0) is a pure function evaluated on a grid inside the same check and is not a simulation result"},
     "C14": {"level": "exploration", "arms": [A("seq-primal", 40000, 1500000), A("par-primal", 40000, 1500000), A("seq-primal-cache", 80000, 1500000), A("par-primal-cache", 40000, 1000000)],
@@ -67,7 +71,7 @@ PROPS = {
     "C15": {"level": "exploration", "arms": [A("seq-longarc", 8000, 120000), A("par-longarc", 4000, 40000), A("seq-longarc-plain", 4000, 60000)],
             "probes": ["branched(explored>=2)", "probe:>=2_workers_compiling_at_once"],
             "rule": RULE_SOLVER + "; depth-free table models with random irrelevance patterns (an irrelevant (layer, state) has the single neutral decision: stay, cost 0); pooled solvers vs plain-diagram solvers vs reference"},
-    "C16": {"level": "exploration", "arms": [A("ex-" + n, 2500, 40000, samples=1) for n in EXAMPLES_READY],
+    "C16": {"level": "exploration", "arms": [A("ex-" + n, 5000, 40000, samples=1) for n in EXAMPLES_READY],
             "probes": ["example_runs:" + n for n in EXAMPLES_READY] + ["probe:>=2_workers_compiling_at_once", "width:default", "threads:4"],
             "rule": "one case = (random small instance written in the example's own file format, width in {1,2,3,default}, threads in {1,2,4}, scheduler seed); the REAL example program (its main(), CLI parsing, reader, model, solver wiring, printing; built from /repo/ddo/examples/<name>/ by harness/exrun/build.rs) runs as a child process under the deterministic scheduler and the number on its `Objective:` line is compared with an independent brute-force enumeration; non-trivial: every case counts; distinct = distinct (instance file, width, threads, schedule trace)",
             "real": ["the example programs themselves: main(), clap CLI, instance readers, DP models, relaxations, rankings, dominance rules, width heuristics (harness/exrun builds them from /repo's working tree)", "ddo solvers, diagrams, fringes, cache, dominance stores; real OS threads under engine S (lock/condvar/thread hooks)"],
